@@ -128,7 +128,7 @@ def reply_failure(ck, prog):
         rep = Agg('cosmwasm_std::Reply', [1, Enum('cosmwasm_std::SubMsgResult', 'Err', [Str('provide failed')])])
         return enter(it, 'frontend_helper', 'reply', mk_env(it, 10**18), None, rep)
     for p in ck.explore(prog, body, 'helper.reply.failed'):
-        ck.oblige('C11.helper.reply.failure_reverts', p, p.ok, 'a failed deposit makes the reply fail, so the pulled tokens and approvals are rolled back with the transaction')
+        ck.oblige('%s.helper.reply.failure_reverts' % ck.pid, p, p.ok, 'a failed deposit makes the reply fail, so the pulled tokens and approvals are rolled back with the transaction')
 
 
 def run(ck):
